@@ -96,6 +96,9 @@ pub mod token {
     use vstd::prelude::*;
     use crate::verif_std::*;
     use crate::builder::{BlockBuilder};
+    pub use crate::builder;
+    use crate::rand;
+    use crate::crypto::TokenNext;
     use self::public_keys::PublicKeys;
     use super::crypto::{KeyPair, PublicKey, Signature};
     use super::datalog::SymbolTable;
@@ -289,6 +292,7 @@ pub mod token {
         //@ ensures same: *r == self.container
         //@end
         //@extract biscuit-auth/src/token/mod.rs :: impl Biscuit :: fn append_with_keypair
+        //@ ensures next_key: r is Ok ==> last_block(r->Ok_0.container).next_key == kp_public(*keypair) && r->Ok_0.container.proof == TokenNext::Secret(kp_private(*keypair))
         //@ ensures inv: r is Ok && self.inv() ==> r->Ok_0.inv()
         //@ ghost before_tail :: proof { if self.inv() { lemma_tables_push(self.authority, self.blocks@, self.container.blocks@, deser, last_block(container), container.blocks@, self.symbols.strings_view(), self.symbols.public_keys.keys@, block.symbols.strings_view(), block.public_keys.keys@); assert(block.symbols.public_keys.keys@ =~= Seq::<PublicKey>::empty()); assert(symbols.public_keys.keys@ =~= self.symbols.public_keys.keys@ + block.public_keys.keys@); } }
         //@ requires rep: self.rep()
@@ -298,11 +302,22 @@ pub mod token {
         //@ ensures frame: r is Ok ==> appended(self.container, r->Ok_0.container) && r->Ok_0.root_key_id == self.root_key_id && r->Ok_0.authority == self.authority && last_block(r->Ok_0.container).external_signature is None
         //@ ensures chain: r is Ok && chain_tail_valid(self.container, false) ==> chain_tail_valid(r->Ok_0.container, false)
         //@end
+        //@extract biscuit-auth/src/token/mod.rs :: impl Biscuit :: fn append
+        //@ requires rep: self.rep()
+        //@ ensures fresh_key: r is Ok ==> last_block(r->Ok_0.container).next_key == kp_public(crate::crypto::rng_keypair(builder::Algorithm::Ed25519)) && r->Ok_0.container.proof == TokenNext::Secret(kp_private(crate::crypto::rng_keypair(builder::Algorithm::Ed25519)))
+        //@ ensures sealed: self.container.proof is Seal ==> r is Err
+        //@end
+        //@extract biscuit-auth/src/token/mod.rs :: impl Biscuit :: fn append_third_party
+        //@ requires rep: self.rep()
+        //@ ensures fresh_key: r is Ok ==> last_block(r->Ok_0.container).next_key == kp_public(crate::crypto::rng_keypair(builder::Algorithm::Ed25519)) && r->Ok_0.container.proof == TokenNext::Secret(kp_private(crate::crypto::rng_keypair(builder::Algorithm::Ed25519)))
+        //@ ensures sealed: self.container.proof is Seal ==> r is Err
+        //@end
         //@extract biscuit-auth/src/token/mod.rs :: impl Biscuit :: fn third_party_request
         //@ ensures sealed: self.container.proof is Seal ==> r == Err::<ThirdPartyRequest, error::Token>(error::Token::AppendOnSealed)
         //@ ensures prev: r is Ok ==> r->Ok_0.previous_signature@ == last_block(self.container).signature.0@
         //@end
         //@extract biscuit-auth/src/token/mod.rs :: impl Biscuit :: fn append_third_party_with_keypair
+        //@ ensures next_key: r is Ok ==> last_block(r->Ok_0.container).next_key == kp_public(next_keypair) && r->Ok_0.container.proof == TokenNext::Secret(kp_private(next_keypair))
         //@ ensures inv: r is Ok && self.inv() ==> r->Ok_0.inv()
         //@ ghost before_tail :: proof { if self.inv() { lemma_tables_push(self.authority, self.blocks@, self.container.blocks@, block, last_block(container), container.blocks@, self.symbols.strings_view(), self.symbols.public_keys.keys@, Seq::<String>::empty(), Seq::<PublicKey>::empty()); assert(self.symbols.strings_view() + Seq::<String>::empty() =~= self.symbols.strings_view()); assert(self.symbols.public_keys.keys@ + Seq::<PublicKey>::empty() =~= self.symbols.public_keys.keys@); } }
         //@ requires rep: self.rep()
@@ -334,6 +349,8 @@ pub mod token {
             token::{ThirdPartyBlockContents, ThirdPartyRequest},
         };
         use crate::crypto::KeyPair;
+        use crate::rand;
+        use crate::crypto::TokenNext;
         use crate::token::RootKeyProvider;
         use crate::spec::*;
         use crate::tspec::*;
@@ -373,6 +390,7 @@ pub mod token {
             //@ ensures wire: r is Ok ==> schema::wire_decode(slice@) is Some && wire_rel(schema::wire_decode(slice@)->Some_0, r->Ok_0.container, true)
             //@end
             //@extract biscuit-auth/src/token/unverified.rs :: impl UnverifiedBiscuit :: fn append_with_keypair
+            //@ ensures next_key: r is Ok ==> last_block(r->Ok_0.container).next_key == kp_public(*keypair) && r->Ok_0.container.proof == TokenNext::Secret(kp_private(*keypair))
             //@ ensures inv: r is Ok && self.inv() ==> r->Ok_0.inv()
             //@ ghost before_tail :: proof { if self.inv() { lemma_tables_push(self.authority, self.blocks@, self.container.blocks@, deser, last_block(container), container.blocks@, self.symbols.strings_view(), self.symbols.public_keys.keys@, block.symbols.strings_view(), block.public_keys.keys@); assert(block.symbols.public_keys.keys@ =~= Seq::<PublicKey>::empty()); assert(symbols.public_keys.keys@ =~= self.symbols.public_keys.keys@ + block.public_keys.keys@); } }
             //@ requires rep: self.rep()
@@ -381,6 +399,16 @@ pub mod token {
             //@ ensures rep: r is Ok ==> r->Ok_0.rep()
             //@ ensures frame: r is Ok ==> appended(self.container, r->Ok_0.container) && r->Ok_0.authority == self.authority && last_block(r->Ok_0.container).external_signature is None
             //@ ensures chain: r is Ok && chain_tail_valid(self.container, false) ==> chain_tail_valid(r->Ok_0.container, false)
+            //@end
+            //@extract biscuit-auth/src/token/unverified.rs :: impl UnverifiedBiscuit :: fn append
+            //@ requires rep: self.rep()
+            //@ ensures fresh_key: r is Ok ==> last_block(r->Ok_0.container).next_key == kp_public(crate::crypto::rng_keypair(crate::builder::Algorithm::Ed25519)) && r->Ok_0.container.proof == TokenNext::Secret(kp_private(crate::crypto::rng_keypair(crate::builder::Algorithm::Ed25519)))
+            //@ ensures sealed: self.container.proof is Seal ==> r is Err
+            //@end
+            //@extract biscuit-auth/src/token/unverified.rs :: impl UnverifiedBiscuit :: fn append_third_party
+            //@ requires rep: self.rep()
+            //@ ensures fresh_key: r is Ok ==> last_block(r->Ok_0.container).next_key == kp_public(crate::crypto::rng_keypair(crate::builder::Algorithm::Ed25519)) && r->Ok_0.container.proof == TokenNext::Secret(kp_private(crate::crypto::rng_keypair(crate::builder::Algorithm::Ed25519)))
+            //@ ensures sealed: self.container.proof is Seal ==> r is Err
             //@end
             //@extract biscuit-auth/src/token/unverified.rs :: impl UnverifiedBiscuit :: fn root_key_id
             //@ ensures same: r == self.container.root_key_id
@@ -433,6 +461,7 @@ pub mod token {
             //@ ensures prev: r is Ok ==> r->Ok_0.previous_signature@ == last_block(self.container).signature.0@
             //@end
             //@extract biscuit-auth/src/token/unverified.rs :: impl UnverifiedBiscuit :: fn append_third_party_with_keypair
+            //@ ensures next_key: r is Ok ==> last_block(r->Ok_0.container).next_key == kp_public(next_keypair) && r->Ok_0.container.proof == TokenNext::Secret(kp_private(next_keypair))
             //@ ensures inv: r is Ok && self.inv() ==> r->Ok_0.inv()
             //@ ghost before_tail :: proof { if self.inv() { lemma_tables_push(self.authority, self.blocks@, self.container.blocks@, block, last_block(container), container.blocks@, self.symbols.strings_view(), self.symbols.public_keys.keys@, Seq::<String>::empty(), Seq::<PublicKey>::empty()); assert(self.symbols.strings_view() + Seq::<String>::empty() =~= self.symbols.strings_view()); assert(self.symbols.public_keys.keys@ + Seq::<PublicKey>::empty() =~= self.symbols.public_keys.keys@); } }
             //@ requires rep: self.rep()
@@ -635,3 +664,5 @@ pub mod tspec {
 //@canary tables-keys-not-extended :: token::Biscuit::append_with_keypair :: symbols.public_keys.extend(&block.public_keys)?; ==>>
 //@canary tables-unverified-keys-not-extended :: token::unverified::UnverifiedBiscuit::append_with_keypair :: symbols.public_keys.extend(&block.public_keys)?; ==>>
 //@canary tables-authority-keys :: format::SerializedBiscuit::extract_blocks :: for pk in &authority.public_keys { ==>> for pk in &authority.public_keys[0..0] {
+//@canary append-key-not-from-rng :: token::Biscuit::append :: KeyPair::new_with_rng(builder::Algorithm::Ed25519, ==>> KeyPair::new_with_rng(builder::Algorithm::Secp256r1,
+//@canary unverified-append-third-party-key :: token::unverified::UnverifiedBiscuit::append_third_party :: self.append_third_party_with_keypair(slice, next_keypair) ==>> self.append_third_party_with_keypair(slice, KeyPair::new_with_rng(super::builder::Algorithm::Secp256r1, &mut rand::rngs::OsRng))
